@@ -93,7 +93,7 @@ Definition m_factors (nb : nat) (m : emodel) : list qfactor :=
 Definition m_nodes (nb : nat) (m : emodel) : list var :=
   seq 0 nb ++ map (fun p => lv nb (fst p)) (m_leaves m).
 
-(* a question.  q_vars = None is `map_query(variables=None)`: "all nodes of self.model".
+(* a question.  q_vars = None is `map_query(variables=None)`: "all unobserved nodes of self.model".
    q_order is the elimination order actually used (an order parameter: greedy einsum path, MinFill,
    set iteration...); it must list the nodes of the queried model that are neither asked nor observed. *)
 Record question := {
@@ -131,7 +131,10 @@ Definition ask_nr (nb : nat) (cs : list nat) (m : emodel) (q : question)
   : (list var * list Qc) * emodel :=
   let m1 := match q_virt q with Some v => augment m v | None => m end in
   let ev1 := match q_virt q with Some v => q_ev q ++ virt_evidence nb v | None => q_ev q end in
-  let Q := match q_vars q with Some Q => Q | None => m_nodes nb m1 end in
+  let Q := match q_vars q with
+           | Some Q => Q
+           | None => filter (fun v => negb (memv v (map fst ev1))) (m_nodes nb m1)   (* all unobserved nodes *)
+           end in
   if q_bp q then
     let orig := m1 in
     let pruned := prune nb m1 Q ev1 in
@@ -155,6 +158,28 @@ Definition ask (nb : nat) (cs : list nat) (m : emodel) (q : question)
 
 Definition run_history (nb : nat) (cs : list nat) (m : emodel) (h : list question) : emodel :=
   fold_left (fun m q => snd (ask nb cs m q)) h m.
+
+(* Rejected calls.  What pgmpy checks before (or while) answering: a variable both asked and observed
+   (ValueError up front), unknown variables, an evidence state out of range (KeyError from get_state_no),
+   virtual evidence on an unknown variable or of the wrong cardinality (_check_virtual_evidence).  A
+   rejected call returns no answer; the try/finally blocks leave the engine bound to what it was bound to. *)
+Fixpoint nodupv (l : list var) : bool :=
+  match l with [] => true | x :: r => negb (memv x r) && nodupv r end.
+Definition q_valid (nb : nat) (cs : list nat) (m : emodel) (q : question) : bool :=
+  let virt := match q_virt q with Some v => v | None => [] end in
+  let m1 := augment m virt in
+  let nodes := m_nodes nb m1 in
+  let Q := match q_vars q with Some Q => Q | None => [] end in
+  forallb (fun v => memv v nodes) Q && nodupv Q
+  && forallb (fun p => (fst p <? nb)%nat && (snd p <? ecard nb cs (fst p))%nat) (q_ev q)
+  && nodupv (map fst (q_ev q))
+  && forallb (fun v => negb (memv v (map fst (q_ev q)))) Q
+  && forallb (fun p => (fst p <? nb)%nat && Nat.eqb (length (snd p)) (ecard nb cs (fst p))) virt.
+Definition ask_e (nb : nat) (cs : list nat) (m : emodel) (q : question)
+  : option (list var * list Qc) * emodel :=
+  if q_valid nb cs m q then (Some (fst (ask nb cs m q)), snd (ask nb cs m q)) else (None, m).
+Definition run_history_e (nb : nat) (cs : list nat) (m : emodel) (h : list question) : emodel :=
+  fold_left (fun m q => snd (ask_e nb cs m q)) h m.
 Definition fresh (L : list qfactor) : emodel := {| m_base := L; m_leaves := [] |}.
 
 (* ------------------------------------------------------------------------------------------- *)
